@@ -47,6 +47,37 @@ def synth_valid(mod, rnd, per_len=2):
     return out
 
 
+def degenerate(names, mods):
+    """Valid numbers with a degenerate payload (all zeros, all nines, 0..01) of every documented length of each part, the last
+    character searched: where a wrapper adds a plausibility rule of its own that the part does not have."""
+    out = []
+    for n, m in zip(names, mods):
+        lens = set()
+        heads = set()
+        for c in lib.corpus(n, m)[:6]:
+            try:
+                v = m.validate(c)
+            except Exception:
+                continue
+            if isinstance(v, str) and v.isascii():
+                lens.add(len(v))
+                heads.add(v[0] if v[:1].isalpha() else '')
+        for ln in sorted(lens):
+            for head in sorted(heads):
+                for fill in ('0', '9'):
+                    body = head + fill * (ln - 1 - len(head))
+                    for body2 in (body, body[:-1] + '1'):
+                        for ch in '0123456789ABCDEFGHIJKLMNOPQRSTUVWXYZ':
+                            cand = body2 + ch
+                            try:
+                                if m.is_valid(cand) is True:
+                                    out.append(cand)
+                                    break
+                            except Exception:
+                                break
+    return list(dict.fromkeys(out))
+
+
 BUILD = {'mva': lambda x: x + 'MVA', 'sevat': lambda x: x + '01', 'chvat': lambda x: x + ' MWST', 'ytunnus': lambda x: x[:-1] + '-' + x[-1:]}
 
 
@@ -174,7 +205,7 @@ def worker(unit, emit):
                 except Exception:
                     continue
                 regen += [x for x, _d in ac.regenerated(n, m, v0, positions=range(0, min(len(v0), 4)))]
-        items = [x for x0 in dict.fromkeys(nums) for x in variants(x0, rnd)] + list(dict.fromkeys(regen))
+        items = [x for x0 in dict.fromkeys(nums) for x in variants(x0, rnd)] + list(dict.fromkeys(regen)) + degenerate(parts, mods)
         for x in items:
             if True:
                 wr = lib.call(w.validate, x)
@@ -204,8 +235,9 @@ def worker(unit, emit):
                     regen += [x for x, _d in ac.regenerated(n, m, m.validate(x0), positions=range(0, 4))]
                 except Exception:
                     pass
-            for x0 in lib.pick(lib.corpus(n, m), p['bases'] * 2, rnd) + synth_valid(m, rnd, 4) + list(dict.fromkeys(regen))[:60]:
-                for x in (variants(x0, rnd) if x0 not in regen else [x0]):
+            degen = degenerate([n], [m])
+            for x0 in lib.pick(lib.corpus(n, m), p['bases'] * 2, rnd) + synth_valid(m, rnd, 4) + list(dict.fromkeys(regen))[:60] + degen:
+                for x in (variants(x0, rnd) if x0 not in regen and x0 not in degen else [x0]):
                     inner = lib.call(m.validate, x)
                     if kind == 'superset10' and not (inner['k'] == 'ret' and len(inner['v']) == 10):
                         continue
